@@ -157,6 +157,43 @@ example :
     (linesSlice ['a', '\n', 'b', '\n'] 1 2).map' (Option.map Str.mk) = .ok (some ⟨['b', '\n']⟩) := by
   decide
 
+/-! ## The script-visible view built-ins, end to end
+
+`bind_*` are GENERATED from the closures basic.rs registers (`idx.try_into().ok()?`
+on the `u64` arguments, then the string.rs method); composed with the generated
+string.rs bodies they are the whole Rust side of `s.chars().slice(i, j)` etc. -/
+
+/-- `String.chars().get/slice`, `String.bytes().get/slice` as registered: for every
+string and ALL `u64` arguments the generated closure ∘ body returns the documented
+value (characters counted for `chars`, byte offsets with `None` off a code-point
+boundary for `bytes`, `None` out of range / reversed), and never panics. -/
+theorem view_builtins_spec (dbg : Bool) (s : Str) (i j : U64) :
+    Gen.C17Views.bind_StringChars_get dbg s i = .ok (specCharsGet s.chars i.toNat) ∧
+    Gen.C17Views.bind_StringChars_slice dbg s i j =
+      .ok ((specCharsSlice s.chars i.toNat j.toNat).map Str.mk) ∧
+    Gen.C17Views.bind_StringBytes_get dbg s i = .ok (specBytesGet s.chars i.toNat) ∧
+    Gen.C17Views.bind_StringBytes_slice dbg s i j =
+      .ok ((specBytesSlice s.chars i.toNat j.toNat).map Str.mk) :=
+  ⟨StringsGen.gen_builtin_chars_get dbg s i, StringsGen.gen_builtin_chars_slice dbg s i j,
+   StringsGen.gen_builtin_bytes_get dbg s i, StringsGen.gen_builtin_bytes_slice dbg s i j⟩
+
+example :
+    Gen.C17Views.bind_StringChars_slice false ⟨['h', 'é', 'l']⟩ ⟨BitVec.ofNat 64 1⟩ ⟨BitVec.ofNat 64 3⟩
+      = .ok (some ⟨['é', 'l']⟩) ∧
+    Gen.C17Views.bind_StringBytes_get false ⟨['h', 'é', 'l']⟩ ⟨BitVec.ofNat 64 (2 ^ 64 - 1)⟩ = .ok none := by
+  decide
+
+/-- `String.lines().get/slice` as registered equal the models the line theorems
+(and the refutations: open findings) are stated over, for ALL `u64` arguments. -/
+theorem lines_builtins_are_model (dbg : Bool) (s : Str) (i j : U64) :
+    Gen.C17Views.bind_StringLines_get dbg s i = .ok (linesGet s.chars i.toNat) ∧
+    Gen.C17Views.bind_StringLines_slice dbg s i j =
+      (linesSlice s.chars i.toNat j.toNat).map' (Option.map Str.mk) :=
+  ⟨StringsGen.gen_builtin_lines_get dbg s i, StringsGen.gen_builtin_lines_slice dbg s i j⟩
+
+example : Gen.C17Views.bind_StringLines_slice false ⟨['a', '\n', 'b', '\n']⟩ ⟨BitVec.ofNat 64 1⟩ ⟨BitVec.ofNat 64 2⟩
+    = .ok (some ⟨['b', '\n']⟩) := by decide
+
 /-! ## `StringChars` -/
 
 /-- `chars().get(n)` is the n-th character, `none` iff `n ≥ len`. -/
